@@ -3,6 +3,7 @@ import ast
 
 from ..core import AnalysisError
 from .. import pyfront as P
+from .. import gsa
 from .. import pycfg
 from .. import rx
 
@@ -233,9 +234,6 @@ def check(ctx):
         raise AnalysisError('parse_comment_block: `for line in comment_lines` not found')
     loop = main[0]
     lv = loop.target.id
-    body0 = [P.src(s) for s in loop.body[:2]]
-    r5.check(body0 == ['lineno += 1', 'position = Position(filename, lineno)'], 'running line number', rel, loop.lineno,
-             'loop does not start with `lineno += 1; position = Position(filename, lineno)`: %s' % body0, detail=body0)
     # how the comment is split into lines
     cl = [v for t, v, st in P.stores_in(f) if isinstance(t, ast.Name) and t.id == 'comment_lines' and isinstance(st, ast.Assign)]
     if len(cl) != 1:
@@ -263,165 +261,113 @@ def check(ctx):
                  'comment text is not split exactly at CRLF / CR / LF: %s' % P.src(sp), detail=P.src(sp))
     else:
         raise AnalysisError('comment_lines = %s: unrecognised way of splitting the block into lines' % P.src(sp))
-    # strip statement: line = line[result.end(0):] together with column_offset = result.end(0)
-    strip = [st for t, v, st in P.stores_in(loop) if isinstance(t, ast.Name) and t.id == lv and isinstance(v, ast.Subscript)]
-    if len(strip) != 1:
-        raise AnalysisError('asterisk strip `line = line[...]` not found')
-    strip = strip[0]
-    blk = P.block_of(strip)[2]
-    texts = [P.src(s) for s in blk]
-    sl = strip.value.slice
-    lower = P.src(sl.lower) if isinstance(sl, ast.Slice) and sl.upper is None and sl.step is None and sl.lower is not None else None
-    r5.check(lower is not None and ('column_offset = %s' % lower) in texts and P.src(strip.value.value) == lv, 'column_offset = length stripped',
-             rel, strip.lineno, 'the number of characters removed in front of the line is not what column_offset records: %s' % texts,
-             detail=texts[-2:])
-    co_defs = [P.src(v) for t, v, st in P.stores_in(loop) if isinstance(t, ast.Name) and t.id == 'column_offset']
-    r5.check(sorted(co_defs) == sorted(['0', lower or '?']) and 'column_offset = 0' in [P.src(s) for s in loop.body[:5]] and
-             'original_line = %s' % lv in [P.src(s) for s in loop.body[:5]],
-             'column_offset / original_line reset per line', rel, loop.lineno, 'column_offset defs: %s' % co_defs)
-    line_defs = pycfg.def_nodes(cfg, lv)
-    frame_preserving = [d for d, v in line_defs.items() if isinstance(v, ast.Call) and isinstance(v.func, ast.Attribute)
-                        and v.func.attr == 'rstrip' and P.src(v.func.value) == lv]
+    # every diagnostic site, with locals copy-propagated and in-class helpers inlined (gated summary): the caret column must be
+    # a match position on (a suffix of) the quoted line plus exactly the number of characters stripped in front of that suffix
+    HELPERS = ('_parse_annotations', '_parse_fields', '_parse_annotation', '_parse_annotation_options_list')
+    PCB = gsa.summarise(ctx, 'annotationparser', 'GtkDocCommentBlockParser.parse_comment_block', opaque=HELPERS + ('_validate_multiline_annotation_continuation',))
+    if len(PCB.params) < 4:
+        raise AnalysisError('parse_comment_block(self, comment, filename, lineno) signature changed: %s' % PCB.params)
+    fname_p, lineno_p = PCB.P(2), PCB.P(3)
 
-    def line_frame(node):
-        """frame of the variable `line` at `node`: 'orig' before the strip statement, 'stripped' after"""
-        rd = pycfg.reaching_defs(cfg, node, lv, line_defs)
-        rd = set(rd)
-        # look through rstrip (prefix preserving)
-        changed = True
-        while changed:
-            changed = False
-            for d in list(rd):
-                if d in frame_preserving:
-                    rd.discard(d)
-                    rd |= pycfg.reaching_defs(cfg, d.value, lv, line_defs)
-                    changed = True
-        if strip in rd:
-            return 'stripped'
-        if rd and all(d is loop.iter for d in rd):
-            # the strip block has not been executed on this path or cannot reach: are we before it?
-            if cfg.reaches(strip, cfg.node_of(node)) and not cfg.dominates(cfg.node_of(node), strip):
-                return 'stripped'      # strip was conditional (no asterisk): column_offset == 0, same invariant
-            return 'orig'
-        return '?'
+    def str_base(n):
+        """(base text, [stripped prefix lengths]) of a string expression"""
+        offs = []
+        while True:
+            if isinstance(n, ast.Subscript) and isinstance(n.slice, ast.Slice) and n.slice.upper is None and n.slice.step is None and n.slice.lower is not None:
+                offs.append(gsa._unparse(n.slice.lower))
+                n = n.value
+            elif isinstance(n, ast.Call) and isinstance(n.func, ast.Attribute) and n.func.attr == 'rstrip' and not n.args:
+                n = n.func.value
+            else:
+                break
+        return gsa._unparse(n), sorted(offs)
 
-    def string_frame(e, at):
-        t = P.src(e)
-        if t == 'original_line':
-            return 'orig'
-        if t == lv:
-            return line_frame(at)
-        if t.startswith('comment_lines['):
-            return t
-        return '?:' + t
+    def col_terms(n):
+        if isinstance(n, ast.BinOp) and isinstance(n.op, ast.Add):
+            return col_terms(n.left) + col_terms(n.right)
+        return [n]
 
-    local = P.local_defs(f)
-
-    def col_frame(e, at, depth=0):
-        """frame of an integer column expression"""
-        t = P.src(e)
-        if depth > 4:
-            return '?'
-        if t == 'column_offset':
-            return 'orig'
-        if isinstance(e, ast.BinOp) and isinstance(e.op, ast.Add):
-            l, r_ = e.left, e.right
-            if P.src(l) == 'column_offset':
-                l, r_ = r_, l
-            if P.src(r_) == 'column_offset':
-                inner = col_frame(l, at, depth + 1)
-                return 'orig' if inner == 'stripped' else 'bad(%s+column_offset)' % inner
-            return '?'
-        if isinstance(e, ast.Call) and isinstance(e.func, ast.Attribute) and e.func.attr in ('start', 'end') and isinstance(e.func.value, ast.Name):
-            var = e.func.value.id
-            dn = pycfg.def_nodes(cfg, var)
-            frames = set()
-            for d in pycfg.reaching_defs(cfg, e.func.value, var, dn):
-                v = dn.get(d) if d != pycfg.ENTRY else None
-                if isinstance(v, ast.Call) and isinstance(v.func, ast.Attribute) and v.func.attr in MATCH_METHODS and v.args:
-                    frames.add(string_frame(v.args[0], v))
-                else:
-                    frames.add('?')
-            return frames.pop() if len(frames) == 1 else 'mixed%s' % sorted(frames)
-        if isinstance(e, ast.Name) and e.id in local:
-            dn = pycfg.def_nodes(cfg, e.id)
-            frames = set()
-            guard_vars = [P.src(g.test) for g in P.guards(at) if g.kind == 'if' and g.polarity and isinstance(g.test, ast.Name)]
-            for d in pycfg.reaching_defs(cfg, e, e.id, dn):
-                if d == pycfg.ENTRY:
-                    continue   # "unbound on some path" is not a coordinate-frame question
-                v = dn.get(d)
-                if isinstance(v, ast.Constant) and v.value is None:
-                    # `x = None` next to `g = None` where the use is under `if g:` cannot reach the use with None
-                    blk_ = P.block_of(d)
-                    sib = [P.src(s_) for s_ in blk_[2]] if blk_ else []
-                    if any('%s = None' % gv in sib for gv in guard_vars):
-                        continue
-                    frames.add('none')
-                    continue
-                frames.add(col_frame(v, v, depth + 1) if v is not None else '?')
-            return frames.pop() if len(frames) == 1 else 'mixed%s' % sorted(frames)
-        return '?'
-
-    helpers = ('self._parse_annotations', 'self._parse_fields', 'self._parse_annotation', 'self._parse_annotation_options_list')
-    sites = []
-    for c in P.calls_in(f):
-        nm = P.call_name(c)
-        if nm in ('warn', 'error') and len(c.args) >= 5:
-            sites.append((c, c.args[3], c.args[4], nm))
-        elif nm in helpers and len(c.args) >= 3:
-            sites.append((c, c.args[1], c.args[2], nm))
-    n_exempt = 0
-    for c, col, line_e, nm in sites:
-        gs = [g.text() for g in P.guards(c)]
-        deprecated = any('DEPRECATED_GI_ANN_TAGS' in g and not g.startswith('not') for g in gs)
-        cf = col_frame(col, c)
-        lf = string_frame(line_e, c)
-        construct = '%s(%s, %s)' % (nm, P.src(col), P.src(line_e))
-        if deprecated:
-            n_exempt += 1
+    def check_site(e, col, line_e, what):
+        base, loffs = str_base(line_e)
+        terms = []
+        for t in col_terms(col):
+            if isinstance(t, ast.Constant) and t.value == 0:
+                continue
+            is_pos = isinstance(t, ast.Call) and isinstance(t.func, ast.Attribute) and t.func.attr in ('start', 'end') and isinstance(t.func.value, ast.Call) \
+                and isinstance(t.func.value.func, ast.Attribute) and t.func.value.func.attr in MATCH_METHODS and bool(t.func.value.args)
+            terms.append((gsa._unparse(t), str_base(t.func.value.args[0]) if is_pos else None))
+        pos = [sb for txt, sb in terms if sb is not None]
+        ks = [txt for txt, sb in terms if sb is None]
+        ok = False
+        if not terms:
+            ok = True
+        for i, (txt, sb) in enumerate(terms):
+            if sb is None or sb[0] != base:
+                continue
+            rest = sorted([t2 for j, (t2, s2) in enumerate(terms) if j != i] + loffs)
+            if rest == sorted(sb[1]):
+                ok = True
+        r5.check(ok, what, rel, e.line,
+                 'caret column `%s` and quoted line `%s` are not in the same coordinate frame: the column must be a match position on (a suffix of) the quoted line plus the '
+                 'length stripped in front of that suffix, so that the caret points at the offending text' % (gsa._unparse(col)[:120], gsa._unparse(line_e)[:60]),
+                 detail={'position terms': pos, 'offsets': ks, 'line': [base, loffs]})
+        return base
+    WANT_POS = {'comment_lines[0]': 'Position(%s, %s)' % (fname_p, lineno_p), 'comment_lines[-1]': 'Position(%s, %s + len(comment_lines) - 1)' % (fname_p, lineno_p)}
+    n_exempt = n_sites = 0
+    diag = []
+    for e in PCB.effects:
+        if e.kind != 'call' or e.vnode is None:
             continue
-        r5.check(cf == lf and not cf.startswith('?') and not cf.startswith('bad') and not cf.startswith('mixed'), construct, rel, c.lineno,
-                 'caret column is in frame %r but the quoted line is in frame %r: the caret does not point at the offending text '
-                 '(original line vs line with the leading " * " removed)' % (cf, lf), detail={'column': cf, 'line': lf})
+        a = e.vnode.args
+        if e.target in ('warn', 'error'):
+            diag.append(e)
+            if gsa.needs(PCB, e, r'DEPRECATED_GI_ANN_TAGS'):
+                n_exempt += 1
+                continue
+            if len(a) >= 5:
+                n_sites += 1
+                base = check_site(e, a[3], a[4], '%s(%s, %s)' % (e.target, P.src(e.node.args[3]), P.src(e.node.args[4])))
+                wantp = WANT_POS.get(base, 'Position(%s, %s + 1)' % (fname_p, lineno_p) if e.loops else None)
+                r5.check(len(a) >= 2 and gsa._unparse(a[1]) == wantp, 'diagnostic carries the position of the quoted line', rel, e.line,
+                         'diagnostic quoting `%s` is reported at %s, expected %s' % (base, gsa._unparse(a[1]) if len(a) > 1 else None, wantp), detail=gsa._unparse(a[1]) if len(a) > 1 else None)
+            else:
+                wantp = 'Position(%s, %s + 1)' % (fname_p, lineno_p) if e.loops else 'Position(%s, %s)' % (fname_p, lineno_p)
+                r5.check(len(a) >= 2 and gsa._unparse(a[1]) == wantp, 'diagnostic carries position', rel, e.line,
+                         'diagnostic without the current position: %s' % e.value[:80])
+        elif e.target in ['self.' + h for h in HELPERS] and len(a) >= 3:
+            if gsa.needs(PCB, e, r'DEPRECATED_GI_ANN_TAGS'):
+                n_exempt += 1
+                continue
+            n_sites += 1
+            check_site(e, a[1], a[2], '%s(%s, %s)' % (e.target, P.src(e.node.args[1]), P.src(e.node.args[2])))
+            r5.check(gsa._unparse(a[0]) == 'Position(%s, %s + 1)' % (fname_p, lineno_p), 'helper receives the position of the current line', rel, e.line,
+                     '%s is given position %s' % (e.target, gsa._unparse(a[0])))
+    if n_sites < 20:
+        raise AnalysisError('parse_comment_block: only %d diagnostic sites with a caret column recognised' % n_sites)
     ctx.notes.append('R5: %d diagnostic sites under the deprecated tag-style branch exempted (as the property states)' % n_exempt)
+    inc = [e for e in PCB.effects if e.kind == 'local' and e.target == lineno_p]
+    okinc = len(inc) == 1 and inc[0].value == '%s + 1' % lineno_p and all(gsa.implies(d.cond, inc[0].cond) for d in diag if d.loops)
+    r5.check(okinc, 'running line number', rel, inc[0].line if inc else f.lineno, 'the line counter is not incremented exactly once, first thing, for every line: %s' % [(e.value, e.when()[:80]) for e in inc])
     # helpers pass (column, line) through unchanged in frame
-    for hn in ('_parse_annotations', '_parse_fields', '_parse_annotation', '_parse_annotation_options_list'):
-        hf = py.func('annotationparser', 'GtkDocCommentBlockParser.' + hn)
-        params = [a.arg for a in hf.args.args]
+    for hn in HELPERS:
+        HS = gsa.summarise(ctx, 'annotationparser', 'GtkDocCommentBlockParser.' + hn, inline_only=())
+        params = HS.params
         if 'column' not in params or 'line' not in params:
             raise AnalysisError('%s lost its (column, line) parameters' % hn)
-        for c in P.calls_in(hf):
-            nm = P.call_name(c)
+        for e in HS.effects:
+            if e.kind != 'call' or e.vnode is None:
+                continue
+            a = e.vnode.args
             col = line_e = None
-            if nm in ('warn', 'error') and len(c.args) >= 5:
-                col, line_e = c.args[3], c.args[4]
-            elif nm in helpers and len(c.args) >= 3:
-                col, line_e = c.args[1], c.args[2]
+            if e.target in ('warn', 'error') and len(a) >= 5:
+                col, line_e = a[3], a[4]
+            elif e.target in ['self.' + h for h in HELPERS] and len(a) >= 3:
+                col, line_e = a[1], a[2]
             if col is None:
                 continue
-            names = P.names_in(col)
-            derived = 'column' in names
-            if not derived:
-                # locals derived from column (marker_pos = column + ...)
-                for nme in names:
-                    for v in P.local_defs(hf).get(nme, []):
-                        if v is not None and 'column' in P.names_in(v):
-                            derived = True
-            r5.check(derived and P.src(line_e) == 'line', '%s: %s(%s, %s)' % (hn, nm, P.src(col), P.src(line_e)), rel, c.lineno,
-                     'helper does not pass the (column, line) pair it received: column=%s line=%s' % (P.src(col), P.src(line_e)))
-    # every diagnostic in parse_comment_block carries a position built from filename + running lineno
-    pos_defs = [P.src(v) for t, v, st in P.stores_in(f) if isinstance(t, ast.Name) and t.id in ('position', 'comment_block_pos')]
-    r5.check(all(d.startswith('Position(filename, lineno') for d in pos_defs) and len(pos_defs) >= 6, 'positions built from (filename, lineno)', rel,
-             f.lineno, 'position definitions: %s' % sorted(set(pos_defs)), detail=sorted(set(pos_defs)))
-    for c in P.calls_in(f):
-        if P.call_name(c) in ('warn', 'error'):
-            r5.check(len(c.args) >= 2 and P.src(c.args[1]) == 'position', 'diagnostic carries position', rel, c.lineno,
-                     'diagnostic without the current position: %s' % P.src(c)[:80])
-    # end-of-block position arithmetic
-    endpos = [d for d in pos_defs if 'comment_lines_len' in d]
-    r5.check(endpos and all(d == 'Position(filename, lineno + comment_lines_len - 1)' for d in endpos), 'end token line', rel, f.lineno,
-             'end-token diagnostics use %s' % endpos)
+            derived = 'column' in P.names_in(col)
+            r5.check(derived and gsa._unparse(line_e) == 'line', '%s: %s(%s, %s)' % (hn, e.target, gsa._unparse(col)[:40], gsa._unparse(line_e)[:20]), rel, e.line,
+                     'helper does not pass the (column, line) pair it received: column=%s line=%s' % (gsa._unparse(col), gsa._unparse(line_e)))
     # copies of annotation containers keep their position
     ann_cls = py.cls('annotationparser', 'GtkDocAnnotations')
     pa = py.func('annotationparser', 'GtkDocCommentBlockParser._parse_annotations')
@@ -501,26 +447,28 @@ def check(ctx):
 
     # ------------------------------------------------------------------ R7 all-or-nothing annotations
     r7 = ctx.rule('R7', 'a malformed annotation field yields no annotations at all; results applied only on success', floor=12)
-    rets = [n for n in P.walk_no_nested(pa) if isinstance(n, ast.Return) and isinstance(n.value, ast.Call) and P.call_name(n.value) == '_ParseAnnotationsResult']
+    PAS = gsa.summarise(ctx, 'annotationparser', 'GtkDocCommentBlockParser._parse_annotations', inline_only=())
     fields = py.fold(m.assigns['_ParseAnnotationsResult'][0].args[1], m)
     si, ai = fields.index('success'), fields.index('annotations')
-    n_fail = 0
+    rets = [e for e in PAS.effects if e.kind == 'return']
+    fails = []
     for rt in rets:
-        a = rt.value.args
-        if P.src(a[si]) == 'False':
-            n_fail += 1
-            r7.check(P.src(a[ai]) == 'None', 'failure result carries no annotations', rel, rt.lineno,
-                     'failed parse returns annotations=%s' % P.src(a[ai]))
-        # every error() in _parse_annotations about parentheses is followed by a failure return
-    for c in P.calls_in(pa):
-        if P.call_name(c) == 'error' and 'will be ignored' in (py.try_fold(c.args[0], m, '') or ''):
-            st = P.enclosing_stmt(c)
-            blk = P.block_of(st)
-            nxt = blk[2][blk[3] + 1] if blk and blk[3] + 1 < len(blk[2]) else None
-            ok = isinstance(nxt, ast.Return) and isinstance(nxt.value, ast.Call) and P.src(nxt.value.args[si]) == 'False'
-            r7.check(ok, '"annotations will be ignored" is followed by a failure return', rel, c.lineno,
+        n = rt.vnode
+        if not (isinstance(n, ast.Call) and P.call_name(n) == '_ParseAnnotationsResult' and len(n.args) > max(si, ai)):
+            r7.fail('result type', rel, rt.line, '_parse_annotations returns %s instead of a _ParseAnnotationsResult' % rt.value[:60])
+            continue
+        if gsa._unparse(n.args[si]) == 'False':
+            fails.append(rt)
+            r7.check(gsa._unparse(n.args[ai]) == 'None', 'failure result carries no annotations', rel, rt.line,
+                     'failed parse returns annotations=%s' % gsa._unparse(n.args[ai]))
+    FAIL = gsa.cond_any(fails)
+    for c in gsa.find(PAS, 'call', r'^error$'):
+        msg = c.vnode.args[0] if c.vnode is not None and c.vnode.args else None
+        if msg is not None and 'will be ignored' in (py.try_fold(msg, m, '') or ''):
+            r7.check(gsa.implies(c.cond, FAIL), '"annotations will be ignored" is followed by a failure return', rel, c.line,
                      'error says the annotations will be ignored but parsing continues')
-    r7.check(n_fail >= 4, 'failure returns present', rel, pa.lineno, 'only %d failure returns' % n_fail)
+    n_fail = len(set(e.line for e in fails)) if len(set(e.line for e in fails)) >= 4 else len(fails)
+    r7.check(len(fails) >= 4, 'failure returns present', rel, pa.lineno, 'only %d failure returns' % len(fails))
     # the working container never aliases the caller's live annotations
     wk = [(v, st) for t, v, st in P.stores_in(pa) if isinstance(t, ast.Name) and t.id == 'parsed_annotations' and isinstance(st, ast.Assign)]
     for v, st in wk:
